@@ -14,6 +14,8 @@
 package query
 
 import (
+	"strconv"
+	"os"
 	"fmt"
 	"math/rand/v2"
 	"regexp"
@@ -110,7 +112,12 @@ func TestVerifC02Q(t *testing.T) {
 	th := &Thread{}
 	n := vk.N(1200, 60000)
 	const perDB = 8
-	for ci := 0; ci < n; {
+	ci0 := 0
+	if s := os.Getenv("VERIF_C02Q_DB"); s != "" { // development aid: only the cases of one generated database
+		dbi, _ := strconv.Atoi(s)
+		ci0, n = dbi*perDB, dbi*perDB+perDB
+	}
+	for ci := ci0; ci < n; {
 		dbi := ci / perDB
 		rep.Case("query-unit db %d (generating)", dbi)
 		d := vfGenDB(vk.RandFor(202, dbi), 30)
@@ -286,7 +293,7 @@ func vfC02QCase(rep *vk.Report, d *vfDB, dbi, ci int, th *Thread) {
 	// keeps them when the query is rewound: that is how those strategies are defined, not a visibility failure,
 	// so the rewound comparison is made only for strategies that read through to the indexes
 	materialises := strings.Contains(vu.sig, "tempindex") || strings.Contains(vu.sig, "-map") || strings.Contains(vu.sig, "-hash") ||
-		strings.Contains(vu.sig, "-tbl")
+		strings.Contains(vu.sig, "-tbl") || strings.Contains(vu.sig, "project-none") // project-none remembers "source has a row"
 	if materialises {
 		skip("rewound_materialising_strategy")
 	} else if vu.sig == vc.sig {
